@@ -1064,6 +1064,10 @@ def _slice_table(func):
             if isinstance(e, ast.Attribute) and txt(e.value) == idx and \
                     e.attr in ('start', 'stop', 'step'):
                 return e.attr
+            # another parameter of the function (a length): a foreign symbol
+            if isinstance(e, ast.Name) and e.id in func.params and \
+                    e.id != idx and e.id not in st.vals:
+                return '@' + e.id
             return None
         # substitute locals
         class Sub(ast.NodeTransformer):
@@ -1089,8 +1093,10 @@ def _slice_table(func):
         for key, coef in form.items():
             term = ast.Constant(value=coef) if key == 1 else ast.BinOp(
                 left=ast.Constant(value=coef), op=ast.Mult(),
-                right=ast.Attribute(value=ast.Name(id=idx, ctx=ast.Load()),
-                                    attr=key, ctx=ast.Load()))
+                right=ast.Name(id=key[1:], ctx=ast.Load())
+                if str(key).startswith('@') else
+                ast.Attribute(value=ast.Name(id=idx, ctx=ast.Load()),
+                              attr=key, ctx=ast.Load()))
             out = term if out is None else ast.BinOp(left=out, op=ast.Add(),
                                                      right=term)
         return out or ast.Constant(value=0)
